@@ -337,9 +337,20 @@ Proof.
   - inversion H; subst. exact HJ'.
 Qed.
 
+Lemma jinv_xstep s te s' : JInv s -> xstep s te = Some s' -> JInv s'.
+Proof.
+  intros [J1 J2 J3 J4] H. pose proof (xstep_ws_sub _ _ _ H CJ) as SUB. destruct te as [t e]. cbn [ws] in SUB.
+  destruct (xstep_inv _ _ _ _ H) as (Et & _ & (Q & _ & _ & _ & T & _) & _).
+  constructor; rewrite Et, ?Q, ?T; auto.
+  - intros (u & Hu). apply J3. exists u. auto.
+  - intros Qn Tn. destruct (J4 Qn Tn) as [P|[(w & P1 & P2)|P]]; auto.
+    + right; left. exists w. split; auto.
+    + right; right. apply nil_of_no_elem. intros u Hu. apply SUB in Hu. rewrite P in Hu. destruct Hu.
+Qed.
+
 Lemma jinv_reachable cfg fx sp s : reachable_gen cfg fx sp s -> JInv s.
 Proof.
-  induction 1 as [|s te s' R IH H]; [apply jinv_init|].
+  induction 1 as [|s te s' R IH H|s te s' R IH H]; [apply jinv_init| |eapply jinv_xstep; eauto].
   eapply jinv_step; eauto; [eapply inv_reachable | eapply winv_reachable]; eauto.
 Qed.
 
